@@ -279,6 +279,9 @@ structure World where
   rclk : Nat                      -- clock of the Redis server, ms
   stores : Nat → KV
   bridges : Nat → String → Bool   -- SessionManager.tunnelBridges of node n
+  inflight : Nat → String → Option (Option (Option Val))
+    -- lookups of node n for an id whose storage Get has been answered by the store but whose reply has not
+    -- been consumed yet (outer Option: error / answered; inner: ErrKeyNotFound / value)
 
 def clockOf (w : World) (sk : SK) : Nat := if sk == .redis then w.rclk else w.wall
 
@@ -354,8 +357,32 @@ def lookupWaitingTunnel (cfg : Cfg) (w : World) (n : Nat) (tid : String) : World
       match decodeValue v with
       | none => (w, .errInternal)
       | some r =>
-        if w.wall > r.expiresAt then ((storageDelete cfg.backend w n (C09.makeKey tid)).getD w, .expired)
+        -- (repaired: the expired record is left to its key TTL; an unconditional Delete here could remove a
+        -- newer registration of the id made while this lookup was in flight)
+        if w.wall > r.expiresAt then (w, .expired)
         else (w, .found r)
+
+/-- A lookup whose storage round trip is slow, first half: the store answers the Get now. -/
+def slowBegin (cfg : Cfg) (w : World) (n : Nat) (tid : String) : World × Res :=
+  if tid == "" then (w, .errParam)
+  else
+    ({ w with inflight := fun m t =>
+        if m = n ∧ t = tid then some (storageGet cfg.backend w n (C09.makeKey tid)) else w.inflight m t }, .pending)
+
+/-- Second half: the reply arrives — whatever happened meanwhile — and the lookup finishes with the
+type switch and the explicit expiry check at the time of arrival. -/
+def slowEnd (w : World) (n : Nat) (tid : String) : World × Res :=
+  match w.inflight n tid with
+  | none => (w, .skip)
+  | some got =>
+    ({ w with inflight := fun m t => if m = n ∧ t = tid then none else w.inflight m t },
+      match got with
+      | none => .errStorage
+      | some none => .notFound
+      | some (some v) =>
+        match decodeValue v with
+        | none => .errInternal
+        | some r => if w.wall > r.expiresAt then .expired else .found r)
 
 def removeWaitingTunnel (cfg : Cfg) (w : World) (n : Nat) (tid : String) : World × Res :=
   if tid == "" then (w, .errParam)
@@ -454,6 +481,7 @@ def isHybrid : Backend → Bool
 def restartNode (cfg : Cfg) (w : World) (n : Nat) : World :=
   { w with
     bridges := fun m t => if m = n then false else w.bridges m t,
+    inflight := fun m t => if m = n then none else w.inflight m t,
     stores := fun i => if isHybrid cfg.backend ∧ i = n + 1 then (fun _ => none) else w.stores i }
 
 /-! ## Histories -/
@@ -473,6 +501,8 @@ inductive Ev where
   | pollStart (n : Nat) (tid : String) (k : Nat)
   | pollEnd (n : Nat) (tid : String)
   | restart (n : Nat)
+  | slowBegin (n : Nat) (tid : String)   -- a lookup starts; the store answers its Get; the reply is delayed
+  | slowEnd (n : Nat) (tid : String)     -- the delayed reply arrives and that lookup completes
 deriving DecidableEq, Repr
 
 def step (cfg : Cfg) (w : World) : Ev → World × Res
@@ -490,6 +520,8 @@ def step (cfg : Cfg) (w : World) : Ev → World × Res
   | .pollStart n tid k => pollLoop cfg n tid k w
   | .pollEnd n tid => pollEnd cfg w n tid
   | .restart n => (restartNode cfg w n, .skip)
+  | .slowBegin n tid => slowBegin cfg w n tid
+  | .slowEnd n tid => slowEnd w n tid
 
 def runFrom (cfg : Cfg) (w : World) : List Ev → List Res
   | [] => []
@@ -498,7 +530,7 @@ def runFrom (cfg : Cfg) (w : World) : List Ev → List Res
 def wall0 : Nat := 1000000
 def rclk0 : Nat := 5000000
 
-def World.init : World := ⟨wall0, rclk0, fun _ _ => none, fun _ _ => false⟩
+def World.init : World := ⟨wall0, rclk0, fun _ _ => none, fun _ _ => false, fun _ _ => none⟩
 
 def run (cfg : Cfg) (evs : List Ev) : List Res := runFrom cfg World.init evs
 
